@@ -67,6 +67,10 @@ class _Parameters(NamedTuple):
     g1_stereo_changes: Mapping[AtomId, Mapping[Change, list[Stereo]]]
     g2_stereo_changes: Mapping[AtomId, Mapping[Change, list[Stereo]]]
 
+    # bond: reaction role (formed / broken / fleeting) of the changed bonds
+    g1_bond_changes: Mapping[frozenset[AtomId], Change] = {}
+    g2_bond_changes: Mapping[frozenset[AtomId], Change] = {}
+
 
 class _State(NamedTuple):
     """
@@ -264,6 +268,10 @@ def _sanity_check_and_init(
     g1_degree = {a: len(n_set) for a, n_set in g1_nbrhd.items()}
     g2_degree = {a: len(n_set) for a, n_set in g2_nbrhd.items()}
 
+    # reaction graphs: the role of every bond has to be preserved
+    g1_bond_changes = _bond_changes(g1)
+    g2_bond_changes = _bond_changes(g2)
+
     params = _Parameters(
         g1_nbrhd,
         g2_nbrhd,
@@ -277,11 +285,27 @@ def _sanity_check_and_init(
         g2_stereo,
         g1_stereo_changes,
         g2_stereo_changes,
+        g1_bond_changes,
+        g2_bond_changes,
     )
 
     state = _State({}, {}, set(), set(g1_nbrhd), set(), set(g2_nbrhd))
 
     return params, state
+
+
+def _bond_changes(
+    g: MolGraph | StereoMolGraph,
+) -> dict[frozenset[AtomId], Change]:
+    from stereomolgraph.graphs.crg import CondensedReactionGraph
+
+    if not isinstance(g, CondensedReactionGraph):
+        return {}
+    return {
+        frozenset(bond): change
+        for bond in g.bonds
+        if (change := g.get_bond_attribute(*bond, "reaction")) is not None
+    }
 
 
 def _wrap_all(
@@ -343,6 +367,9 @@ def vf2pp_all_isomorphisms(
             feasibility_funcs.append(_stereo_change_feasibility)
     else:
         raise ValueError("Invalid combination of parameters.")
+
+    if params.g1_bond_changes or params.g2_bond_changes:
+        feasibility_funcs.append(_bond_change_feasibility)
 
     feasibility = _wrap_all(*feasibility_funcs) # type: ignore
     revert_state = _revert_state
@@ -455,6 +482,22 @@ def _graph_feasibility(
         return False
 
     return True
+
+def _bond_change_feasibility(
+    u: AtomId, v: AtomId, state: _State, params: _Parameters
+) -> bool:
+    """The bonds to the already mapped neighbors need the same reaction role."""
+    mapping = state.mapping
+    g1_bond_changes = params.g1_bond_changes
+    g2_bond_changes = params.g2_bond_changes
+    for n in params.g1_nbrhd[u]:
+        if n in mapping:
+            if g1_bond_changes.get(frozenset((u, n))) != g2_bond_changes.get(
+                frozenset((v, mapping[n]))
+            ):
+                return False
+    return True
+
 
 def _subgraph_feasibility(
     u: AtomId, v: AtomId, state: _State, params: _Parameters
